@@ -3,7 +3,7 @@ import ast
 
 from mstatic.core import AnalysisError, dotted, norm, own_nodes
 from mstatic.rules import util as U
-from mstatic.statedom import OBJ
+from mstatic.statedom import OBJ, UNK, RAISES
 
 POL = 'mistral.engine.policies'
 RT = 'mistral.engine.tasks.RegularTask'
@@ -20,6 +20,161 @@ def schema_keys(prog, cls_q):
                 isinstance(vv, ast.Dict):
             return {x.value for x in vv.keys if isinstance(x, ast.Constant)}
     raise AnalysisError('%s._schema has no properties' % cls_q)
+
+
+def retry_table(ctx, rule, f):
+    """Decision table of RetryPolicy.after_task_complete over (count, stored
+    attempt number, task state, continue-on clause / value, break-on value,
+    join or not): another attempt is scheduled exactly when the task ended
+    SUCCESS or ERROR, attempts remain (stored number < count), break-on did
+    not fire on an ERROR, and continue-on (when given) holds - a SUCCESS
+    without continue-on stops.  The stored number becomes number + 1."""
+    from mstatic.rules import dt
+    from mstatic.pattern import match
+    defs = U._single_defs(f.node)
+
+    def one(pattern, what):
+        got = sorted({n.targets[0].id for n in own_nodes(f.node)
+                      if isinstance(n, ast.Assign) and
+                      len(n.targets) == 1 and
+                      isinstance(n.targets[0], ast.Name) and
+                      match(U.P(pattern), n.value) is not None})
+        if len(got) != 1:
+            raise AnalysisError('retry table: %s not found (%s)'
+                                % (what, got))
+        return got[0]
+    task = f.params[1]
+    pctx = one('%s.get_policy_context(__k)' % task, 'policy context')
+    cev = one('expressions.evaluate(self._continue_on_clause, __c)',
+              'continue-on value')
+    bev = one('expressions.evaluate(self._break_on_clause, __c)',
+              'break-on value')
+    k_in = "'retry_no' in %s" % pctx
+    k_no = "%s['retry_no']" % pctx
+    k_state = '%s.get_state()' % task
+    k_has = "hasattr(%s.task_spec, 'get_join')" % task
+    k_join = '%s.task_spec.get_join()' % task
+    rng = (0, 1, 2, 3)
+    variables = [('self.count', rng), (k_in, (True, False)), (k_no, rng),
+                 (k_state, ctx.sd.ALL),
+                 ('self._continue_on_clause', (None, OBJ)),
+                 (cev, (True, False)), (bev, (True, None)),
+                 (k_has, (True, False)), (k_join, (None, OBJ))]
+    # locals assigned more than once: the attempt number and boolean flags
+    counts = {}
+    for n in own_nodes(f.node):
+        if isinstance(n, ast.Assign) and len(n.targets) == 1 and \
+                isinstance(n.targets[0], ast.Name):
+            counts.setdefault(n.targets[0].id, []).append(n.value)
+    extra = []
+    for name, vals in sorted(counts.items()):
+        if len(vals) < 2:
+            continue
+        if any(norm(v) == k_no for v in vals):
+            extra.append((name, rng + (4,)))
+        else:
+            extra.append((name, (True, False)))
+    # SKIPPED never arrives: Task.complete does not run the after-complete
+    # hooks of a skipped task (checked here, so that the table may rely on it)
+    tc = ctx.prog.func('mistral.engine.tasks.Task.complete')
+    tcfg = ctx.cfg(tc)
+    hooks = tcfg.calls(lambda c: U.call_name(c) == '_after_task_complete')
+    if not hooks:
+        raise AnalysisError('retry table: Task.complete no longer runs the '
+                            'after-complete hooks')
+    for n, c in hooks:
+        vals, _i, _k = U.guard_values(ctx, tc, n, [('state', ctx.sd.ALL)],
+                                      'state')
+        rule.check('SKIPPED' not in vals,
+                   ctx.construct(tc, c, extra='not for skipped tasks'),
+                   'the after-complete policies (retry, wait-after, '
+                   'fail-on) run for a task that is being SKIPPED: the '
+                   'retry policy would start it again', ctx.loc(tc, c))
+    t = dt.Table(ctx, f, variables, extra_vars=extra,
+                 constraint=lambda d: (d[k_has] or d[k_join] is None) and
+                 d[k_state] != 'SKIPPED')
+
+    def attempt(d):
+        return d[k_no] if d[k_in] else 0
+
+    def again(d):
+        st = d[k_state]
+        return (d['self.count'] > 0 and st in ('SUCCESS', 'ERROR') and
+                attempt(d) < d['self.count'] and
+                not (st == 'ERROR' and d[bev]) and
+                not (st == 'SUCCESS' and d['self._continue_on_clause']
+                     is None) and
+                not (d['self._continue_on_clause'] is not None and
+                     not d[cev]))
+
+    def fmt(d):
+        return ('count=%s attempt=%s state=%s continue-on=%s break-on=%s '
+                'join=%s' % (d['self.count'], attempt(d), d[k_state],
+                             'absent' if d['self._continue_on_clause'] is None
+                             else d[cev], bool(d[bev]),
+                             bool(d[k_has] and d[k_join])))
+    stores = t.stmt_nodes(lambda a: isinstance(a, ast.Assign) and
+                          isinstance(a.targets[0], ast.Subscript) and
+                          isinstance(a.targets[0].slice, ast.Constant) and
+                          a.targets[0].slice.value == 'retry_no')
+    if len(stores) != 1:
+        raise AnalysisError('retry table: store of the attempt number')
+    t.check_exact(rule, stores[0], again, 'another attempt is scheduled',
+                  'retry decision table', fmt)
+    # the stored number is the number that was read + 1
+    bad = []
+    for v in t.full_at(stores[0]):
+        d = dict(zip(t.keys, v[:t.n_in]))
+        got = t.ev(stores[0].ast.value, v)
+        if got is UNK or got is RAISES or got != attempt(d) + 1:
+            bad.append((fmt(d), got))
+    rule.check(not bad, ctx.construct(f, stores[0].ast,
+                                      extra='attempt number + 1'),
+               'the stored attempt number is not the stored number + 1 '
+               '(%s)' % (bad[:1],), ctx.loc(f, stores[0].ast))
+    inv = t.call_nodes('invalidate_result')
+    for n in inv:
+        t.check_exact(rule, n, again, 'the previous result is invalidated',
+                      'retry decision table', fmt)
+    # what happens next: a join waits for its refresh, others are delayed
+    ss = [(n, c) for n, c in t.cfg.calls(lambda c: U.is_call(c, 'set_state'))]
+    seen_targets = set()
+    for n, c in ss:
+        tgt = ctx.sd.ev(c.args[0], {}, dt.Frame(f.module)) if c.args else UNK
+        seen_targets.add(tgt)
+        if tgt == 'WAITING':
+            t.check_exact(rule, n,
+                          lambda d: again(d) and d[k_has] and
+                          d[k_join] is not None,
+                          'a join is put back to WAITING for another attempt',
+                          'retry decision table (join)', fmt)
+        elif tgt == 'DELAYED':
+            t.check_exact(rule, n,
+                          lambda d: again(d) and not (d[k_has] and
+                                                      d[k_join] is not None),
+                          'the task is delayed for another attempt',
+                          'retry decision table (delayed)', fmt)
+        else:
+            rule.fail(ctx.construct(f, c, extra='retry target state'),
+                      'the retry policy moves the task to %s: a task that '
+                      'is retried is either DELAYED until its continuation '
+                      'runs or, for a join, WAITING for its refresh'
+                      % (tgt,), ctx.loc(f, c))
+    if seen_targets != {'WAITING', 'DELAYED'}:
+        raise AnalysisError('retry table: continuation states %s'
+                            % sorted(map(str, seen_targets)))
+    for n in t.call_nodes('_schedule_refresh_task_state'):
+        t.check_exact(rule, n, lambda d: again(d) and d[k_has] and
+                      d[k_join] is not None,
+                      'the refresh of a retried join is scheduled',
+                      'retry decision table (join)', fmt)
+    for n in t.call_nodes('schedule'):
+        t.check_exact(rule, n, lambda d: again(d) and not (
+            d[k_has] and d[k_join] is not None),
+            'the continuation of the retried task is scheduled',
+            'retry decision table (delayed)', fmt)
+    t.undecided(rule, 'count, stored attempt number, task state, '
+                'continue-on, break-on and whether the task is a join')
 
 
 def run(ctx):
@@ -57,58 +212,33 @@ def run(ctx):
                  'retry continuation reachable for task states %s'
                  % sorted(map(str, st - (completed - {S['CANCELLED']}))),
                  ctx.loc(f, c))
-    rr = [n for n in own_nodes(f.node) if isinstance(n, ast.Assign) and
-          dotted(n.targets[0]) == 'retries_remain']
-    r1.check(len(rr) == 1 and norm(rr[0].value) in (
-        'retry_no < self.count', 'self.count > retry_no'),
-        ctx.construct(f, extra='retries_remain'),
-        'retries_remain is not "retry_no < count": %s'
-        % (norm(rr[0].value) if rr else None), ctx.loc(f))
     inc = [n for n in own_nodes(f.node) if isinstance(n, ast.Assign) and
-           norm(n.targets[0]) == "policy_ctx['retry_no']"]
-    okinc = len(inc) == 1 and norm(inc[0].value) in ('retry_no + 1',
-                                                     '1 + retry_no')
-    sn = cfg.stmt_node(inc[0]) if inc else None
+           isinstance(n.targets[0], ast.Subscript) and
+           isinstance(n.targets[0].slice, ast.Constant) and
+           n.targets[0].slice.value == 'retry_no']
+    sn = cfg.stmt_node(inc[0]) if len(inc) == 1 else None
     sets = [n for n, c in cont if U.call_name(c) in (
         'set_state', 'schedule', '_schedule_refresh_task_state')]
-    r1.check(okinc and sn is not None and all(cfg.dominates(sn, x)
-                                              for x in sets),
+    r1.check(sn is not None and all(cfg.dominates(sn, x) for x in sets),
              ctx.construct(f, extra='counter +1 on every continuing path'),
-             'the retry counter is not incremented by one before every '
-             'continuation', ctx.loc(f))
-    # retry_no read from the stored context
-    rd = [n for n in own_nodes(f.node) if isinstance(n, ast.Assign) and
-          dotted(n.targets[0]) == 'retry_no']
-    r1.check(any(norm(n.value) == "policy_ctx['retry_no']" for n in rd) and
-             any(norm(n.value) == '0' for n in rd),
-             ctx.construct(f, extra='counter source'),
-             'retry_no is not read from the policy context (default 0)',
+             'the retry counter is not stored before every continuation',
              ctx.loc(f))
     inv = [n for n, c in cont if U.call_name(c) == 'invalidate_result']
     r1.check(bool(inv) and all(cfg.dominates(inv[0], x) for x in sets),
              ctx.construct(f, extra='invalidate before continue'),
              'results of the failed attempt are not invalidated before the '
              'next attempt', ctx.loc(f))
-    # break / stop definitions
-    bt = [n for n in own_nodes(f.node) if isinstance(n, ast.Assign) and
-          dotted(n.targets[0]) == 'break_triggered']
-    r1.check(len(bt) == 1 and 'states.ERROR' in norm(bt[0].value) and
-             'break_on_evaluation' in norm(bt[0].value) and
-             isinstance(bt[0].value, ast.BoolOp) and
-             isinstance(bt[0].value.op, ast.And),
-             ctx.construct(f, extra='break-on'),
-             'break_triggered is not "ERROR and break-on"', ctx.loc(f))
-    scs = [n for n in own_nodes(f.node) if isinstance(n, ast.Assign) and
-           dotted(n.targets[0]) == 'stop_continue_flag']
-    okc = len(scs) == 2 and any(
-        U.phas(n.value, '___ == states.SUCCESS and '
-               'not self._continue_on_clause') for n in scs) and any(
-        U.phas(n.value, '__f or (self._continue_on_clause and '
-               'not continue_on_evaluation)') for n in scs)
-    r1.check(okc,
-             ctx.construct(f, extra='continue-on'),
-             'stop flag is not "(SUCCESS and no continue-on) or (continue-on '
-             'false)"', ctx.loc(f))
+    # the attempt number lives inside a nested dict of runtime_context:
+    # the ORM only sees the change if the column is touched afterwards
+    touch = [n for n, c in cfg.calls(
+        lambda c: U.call_name(c) == 'touch_runtime_context')]
+    r1.check(sn is not None and bool(touch) and cfg.must_pass(sn, touch),
+             ctx.construct(f, extra='attempt number persisted'),
+             'the incremented attempt number is stored inside the nested '
+             'policy context without touching runtime_context afterwards: '
+             'the ORM does not write it and the task is retried for ever',
+             ctx.loc(f))
+    retry_table(ctx, r1, f)
 
     # ---- R2 timeout ----------------------------------------------------------
     r2 = ctx.rule('R2', 'the timeout only fails tasks that are still '
